@@ -19,7 +19,10 @@ pub fn gen(r: &mut Rng, cases: usize, size: usize, out: &mut Out) {
     for case in 0..cases {
         let nv = r.range(2.min(maxv), maxv);
         out.line(&format!("case persist-{case}"));
-        out.line(&format!("pnew {nv}"));
+        // statement labels with everything serde_json has to escape or pass through; chosen without
+        // the generator so that the rest of the stream is what it was
+        let labels: Vec<String> = (0..nv).map(|i| format!("x{}", hex(&label(case, i)))).collect();
+        out.line(&format!("pnew {nv} {}", labels.join(" ")));
         let mut len = 2usize;
         let pick = |r: &mut Rng, len: usize| -> usize {
             if len > 4 && r.chance(2, 3) {
@@ -117,8 +120,204 @@ pub struct Exec {
     o: Option<Obj>,
 }
 
-fn fresh(nv: usize) -> Adf {
-    let names: Vec<String> = (0..nv).map(|i| format!("s{i}")).collect();
+const LABEL_POOL: [&str; 20] = [
+    "a",
+    "q\"x",
+    "back\\slash",
+    "tab\there",
+    "nl\nx",
+    "\u{1}\u{1f}",
+    "\u{e9}t\u{e9}",
+    "\u{65e5}\u{672c}\u{8a9e}",
+    "\u{1f600}",
+    "\u{7f}",
+    "sp ace",
+    "/slash",
+    "\u{8}\u{c}\r",
+    "{[:,]}",
+    "",
+    "0",
+    "\u{80}\u{7ff}\u{800}\u{ffff}\u{10000}\u{10ffff}",
+    "\\u0041",
+    "\"",
+    "\\",
+];
+
+fn label(case: usize, i: usize) -> String {
+    let n = LABEL_POOL.len();
+    format!("{}{}", LABEL_POOL[(case * 3 + i) % n], if i >= n { i.to_string() } else { String::new() })
+}
+
+fn hex(s: &str) -> String {
+    s.bytes().map(|b| format!("{b:02x}")).collect()
+}
+
+fn unhex(s: &str) -> Option<String> {
+    let b = s.as_bytes();
+    if b.len() % 2 != 0 {
+        return None;
+    }
+    let mut v = Vec::new();
+    for i in (0..b.len()).step_by(2) {
+        v.push(u8::from_str_radix(std::str::from_utf8(&b[i..i + 2]).ok()?, 16).ok()?);
+    }
+    String::from_utf8(v).ok()
+}
+
+fn or_dash(v: Vec<String>, sep: &str) -> String {
+    if v.is_empty() {
+        "-".into()
+    } else {
+        v.join(sep)
+    }
+}
+
+/// the persisted state of a real object, maps sorted by value: names, mapping, node table, ac and
+/// the unique table (private; read through `serde_json::Value`)
+fn canon_state(a: &Adf) -> String {
+    let names: Vec<String> = a.ordering.names().read().unwrap().iter().map(|n| format!("x{}", hex(n))).collect();
+    let mut map: Vec<(usize, String)> = a.ordering.mappings().read().unwrap().iter().map(|(k, v)| (*v, k.clone())).collect();
+    map.sort();
+    let v = serde_json::to_value(a).expect("value");
+    let num = |x: &serde_json::Value| x.as_u64().expect("number");
+    let mut cache: Vec<(u64, u64, u64, u64)> = v["bdd"]["cache"]
+        .as_array()
+        .expect("cache")
+        .iter()
+        .map(|e| (num(&e[1]), num(&e[0]["var"]), num(&e[0]["lo"]), num(&e[0]["hi"])))
+        .collect();
+    cache.sort();
+    format!(
+        "names {} map {} nodes {} ac {} cache {}",
+        or_dash(names, ","),
+        or_dash(map.iter().map(|(v, k)| format!("x{}:{}", hex(k), v)).collect(), ","),
+        dump_nodes(&a.bdd),
+        or_dash(a.ac.iter().map(|t| t.value().to_string()).collect(), ","),
+        or_dash(cache.iter().map(|(t, v, l, h)| format!("{v},{l},{h}>{t}")).collect(), ";")
+    )
+}
+
+/// whitespace before token `i` in variant `k` of the hand-assembled text
+fn wsp(k: usize, i: usize) -> &'static str {
+    if k == 0 {
+        ""
+    } else {
+        [" ", "", "\n", "\t\r ", "", "  "][i % 6]
+    }
+}
+
+/// the text of the object assembled token by token in a prescribed order of the two maps (by value,
+/// ascending for variant 0, descending otherwise) with the whitespace of the variant between the
+/// tokens; strings and numbers are rendered by `serde_json` itself.  The model driver prints the
+/// same text from its own state with its own printer: a difference in one byte is a finding.
+fn assemble(a: &Adf, k: usize) -> String {
+    let js = |s: &str| serde_json::to_string(s).expect("string");
+    let mut t: Vec<String> = Vec::new();
+    let p = |t: &mut Vec<String>, s: &str| t.push(s.to_string());
+    let node = |t: &mut Vec<String>, v: u64, l: u64, h: u64| {
+        for (i, (key, x)) in [("var", v), ("lo", l), ("hi", h)].iter().enumerate() {
+            t.push(if i == 0 { "{".into() } else { ",".into() });
+            t.push(js(key));
+            t.push(":".into());
+            t.push(x.to_string());
+        }
+        t.push("}".into());
+    };
+    let mut map: Vec<(usize, String)> = a.ordering.mappings().read().unwrap().iter().map(|(k, v)| (*v, k.clone())).collect();
+    map.sort();
+    let v = serde_json::to_value(a).expect("value");
+    let num = |x: &serde_json::Value| x.as_u64().expect("number");
+    let mut cache: Vec<(u64, u64, u64, u64)> = v["bdd"]["cache"]
+        .as_array()
+        .expect("cache")
+        .iter()
+        .map(|e| (num(&e[1]), num(&e[0]["var"]), num(&e[0]["lo"]), num(&e[0]["hi"])))
+        .collect();
+    cache.sort();
+    if k != 0 {
+        map.reverse();
+        cache.reverse();
+    }
+    p(&mut t, "{");
+    t.push(js("ordering"));
+    p(&mut t, ":");
+    p(&mut t, "{");
+    t.push(js("names"));
+    p(&mut t, ":");
+    p(&mut t, "[");
+    for (i, n) in a.ordering.names().read().unwrap().iter().enumerate() {
+        if i > 0 {
+            p(&mut t, ",");
+        }
+        t.push(js(n));
+    }
+    p(&mut t, "]");
+    p(&mut t, ",");
+    t.push(js("mapping"));
+    p(&mut t, ":");
+    p(&mut t, "{");
+    for (i, (val, key)) in map.iter().enumerate() {
+        if i > 0 {
+            p(&mut t, ",");
+        }
+        t.push(js(key));
+        p(&mut t, ":");
+        t.push(val.to_string());
+    }
+    p(&mut t, "}");
+    p(&mut t, "}");
+    p(&mut t, ",");
+    t.push(js("bdd"));
+    p(&mut t, ":");
+    p(&mut t, "{");
+    t.push(js("nodes"));
+    p(&mut t, ":");
+    p(&mut t, "[");
+    for (i, n) in a.bdd.nodes.iter().enumerate() {
+        if i > 0 {
+            p(&mut t, ",");
+        }
+        node(&mut t, n.var().value() as u64, n.lo().value() as u64, n.hi().value() as u64);
+    }
+    p(&mut t, "]");
+    p(&mut t, ",");
+    t.push(js("cache"));
+    p(&mut t, ":");
+    p(&mut t, "[");
+    for (i, (term, v, l, h)) in cache.iter().enumerate() {
+        if i > 0 {
+            p(&mut t, ",");
+        }
+        p(&mut t, "[");
+        node(&mut t, *v, *l, *h);
+        p(&mut t, ",");
+        t.push(term.to_string());
+        p(&mut t, "]");
+    }
+    p(&mut t, "]");
+    p(&mut t, "}");
+    p(&mut t, ",");
+    t.push(js("ac"));
+    p(&mut t, ":");
+    p(&mut t, "[");
+    for (i, x) in a.ac.iter().enumerate() {
+        if i > 0 {
+            p(&mut t, ",");
+        }
+        t.push(x.value().to_string());
+    }
+    p(&mut t, "]");
+    p(&mut t, "}");
+    let mut s = String::new();
+    for (i, tok) in t.iter().enumerate() {
+        s.push_str(wsp(k, i));
+        s.push_str(tok);
+    }
+    s.push_str(wsp(k, t.len()));
+    s
+}
+
+fn fresh(names: Vec<String>) -> Adf {
     let mapping: HashMap<String, usize> = names.iter().enumerate().map(|(i, n)| (n.clone(), i)).collect();
     Adf::from((
         VarContainer::from_parser(Arc::new(RwLock::new(names)), Arc::new(RwLock::new(mapping))),
@@ -276,11 +475,16 @@ fn same_as_original(orig: &Adf, new: &Adf) -> String {
 impl Exec {
     pub fn exec(&mut self, ws: &[&str], l: &str, out: &mut Out) -> bool {
         match ws[0] {
-            "pnew" if ws.len() == 2 => {
+            "pnew" if ws.len() >= 2 => {
                 let nv = ws[1].parse().unwrap_or(0);
+                let given: Option<Vec<String>> = ws[2..].iter().map(|w| unhex(w.strip_prefix('x')?)).collect();
+                let names: Vec<String> = match given {
+                    Some(g) if g.len() == nv => g,
+                    _ => (0..nv).map(|i| format!("s{i}")).collect(),
+                };
                 self.o = Some(Obj {
-                    adf: fresh(nv),
-                    twin: fresh(nv),
+                    adf: fresh(names.clone()),
+                    twin: fresh(names),
                     hist: vec![Term::BOT, Term::TOP],
                     nv,
                     trips: 0,
@@ -290,6 +494,7 @@ impl Exec {
                 true
             }
             "pmemocheck" => true, // regenerated by the round trips and `pfinish`
+            "pjson" if ws.len() > 1 => true, // `pjson text …` / `pjson lean …`: regenerated by `pjson`
             "pop" | "pac" | "psem" | "pq" | "pjson" | "prebuild" | "prebuildstream" | "pfinish" => {
                 out.line(l);
                 out.flush();
@@ -395,6 +600,12 @@ impl Exec {
                         }
                     }
                     "pjson" | "prebuild" | "prebuildstream" => {
+                        // the text serde_json writes for the object as it is now, and its state
+                        let real_text = if ws[0] == "pjson" {
+                            catch_unwind(AssertUnwindSafe(|| (serde_json::to_string(&o.adf).expect("serialise"), canon_state(&o.adf)))).ok()
+                        } else {
+                            None
+                        };
                         let r = catch_unwind(AssertUnwindSafe(|| match ws[0] {
                             "pjson" => trip_json(&o.adf),
                             "prebuild" => trip_rebuild(&o.adf),
@@ -418,6 +629,9 @@ impl Exec {
                                 o.adf = new;
                                 o.trips += 1;
                                 memocheck(&o.adf.bdd, o.nv, out);
+                                if let Some((text, state)) = real_text {
+                                    text_level(o, &text, &state, out);
+                                }
                             }
                             Err(_) => {
                                 out.line("= panic");
@@ -450,6 +664,97 @@ impl Exec {
                 true
             }
             _ => false,
+        }
+    }
+}
+
+/// variations of a text serde_json wrote (keys and punctuation outside string literals are found
+/// textually: inside a literal every `"` is escaped, so `,"ac":` cannot occur there)
+fn alts(text: &str) -> Vec<String> {
+    let mut v = Vec::new();
+    let body = &text[..text.len() - 1];
+    // older exports carry a field that is skipped today
+    v.push(text.replacen("},\"ac\":", ",\"count_cache\":{}},\"ac\":", 1));
+    if let (Some(i), Some(j)) = (text.rfind(",\"ac\":"), text.find(",\"bdd\":")) {
+        // `ac` first, an unknown field with a nested value
+        v.push(format!("{{{},\"zz\":[{{}},[1,\"x\"]],{}}}", &body[i + 1..], &text[1..i]));
+        // a missing field
+        v.push(format!("{}}}", &text[..i]));
+        // the struct as an array of its fields
+        v.push(format!("[{},{},{}]", &text[12..j], &text[j + 7..i], &body[i + 6..]));
+    }
+    // a node as an array; an escaped key; outer whitespace
+    v.push(text.replacen("{\"var\":18446744073709551614,\"lo\":0,\"hi\":0}", "[18446744073709551614,0,0]", 1));
+    v.push(text.replacen("\"ordering\"", "\"\\u006frd\\u0065ring\"", 1));
+    v.push(format!(" \n{text}\t\r\n"));
+    // rejected: a repeated field, a leading zero, a trailing comma, trailing characters, a
+    // number that is no usize, a member of the inner struct repeated
+    v.push(format!("{body},\"ac\":[]}}"));
+    v.push(text.replacen("\"lo\":0", "\"lo\":00", 1));
+    v.push(text.replacen("]},\"ac\"", ",]},\"ac\"", 1));
+    v.push(format!("{text} x"));
+    v.push(text.replacen("\"lo\":0", "\"lo\":18446744073709551616", 1));
+    v.push(text.replacen("\"lo\":0,", "\"lo\":0,\"lo\":0,", 1));
+    v
+}
+
+/// the TEXT level of the JSON round trip, both directions.
+/// `pjson text <hex>`: the text serde_json really wrote, for the verified reader of the model
+/// (`Json.parse`): it answers with the state it read (`=`, compared with the real object's state),
+/// whether its own printer reproduces the text byte for byte in the order read, and whether the
+/// state equals the model's own (`~`).
+/// `pjson lean K`: a text assembled in a prescribed order with prescribed whitespace (the model
+/// prints the same text with `Json.render`/`Json.toks`; `= text` compares them byte for byte) is read
+/// by the REAL `serde_json::from_str::<Adf>` + `fix_import`; the object lives on as the result.
+fn text_level(o: &mut Obj, text: &str, state: &str, out: &mut Out) {
+    out.line(&format!("pjson text {}", hex(text)));
+    out.line(&format!("= state {state}"));
+    out.line("~ reprint=1 model=1");
+    if o.trips % 4 == 1 {
+        // what else serde's derived visitors accept (fields in another order, unknown fields,
+        // structs as arrays, escaped keys, outer whitespace) and what they reject: the model's
+        // reader must agree on every one of these texts
+        for t in alts(text) {
+            out.line(&format!("pjson alt {}", hex(&t)));
+            out.flush();
+            let r = catch_unwind(AssertUnwindSafe(|| {
+                serde_json::from_str::<Adf>(&t).ok().map(|mut a| {
+                    a.fix_import();
+                    canon_state(&a)
+                })
+            }));
+            match r {
+                Ok(Some(st)) => out.line(&format!("= state {st}")),
+                Ok(None) => out.line("= unreadable"),
+                Err(_) => out.line("= panic"),
+            }
+        }
+    }
+    for k in 0..2 {
+        out.line(&format!("pjson lean {k}"));
+        out.flush();
+        let r = catch_unwind(AssertUnwindSafe(|| {
+            let t = assemble(&o.adf, k);
+            let mut r: Adf = serde_json::from_str(&t).expect("deserialise");
+            r.fix_import();
+            (t, r)
+        }));
+        match r {
+            Ok((t, new)) => {
+                out.line(&format!("= text {}", hex(&t)));
+                out.line(&format!("= state {}", canon_state(&new)));
+                let v = same_as_original(&o.adf, &new);
+                let (pubf, intf): (Vec<&str>, Vec<&str>) =
+                    v.split(' ').partition(|w| !(w.starts_with("uniq=") || w.starts_with("memo-empty=")));
+                out.line(&format!("= internal {}", intf.join(" ")));
+                out.line(&format!("~ same-as-original {}", pubf.join(" ")));
+                o.adf = new;
+                o.trips += 1;
+            }
+            Err(_) => {
+                out.line("= panic");
+                out.line("~ panic");
+            }
         }
     }
 }
